@@ -14,7 +14,7 @@ import re
 
 from facts import AnalysisBroken
 from prog import walk, kids, short, access_kind
-from rules.common import strip_casts, const_of, guard_facts, written_value, all_guards, counting_for
+from rules.common import strip_casts, const_of, guard_facts, written_value, all_guards, counting_for, local_writes
 from rules.effects import canon, summaries
 
 LEVEL = 'other'
@@ -190,45 +190,101 @@ def check(ctx):
     for n in do.all_nodes():
         if n['k'] == 'CXXOperatorCallExpr' and n.get('op') == '&=' and \
                 strip_casts(kids(n)[1]).get('ref', {}).get('n') == POS + '::_castling_rights':
-            mask = canon(do, kids(n)[2], keep=('side',))
-            gf = []
-            for c, t in guard_facts(do, n):
-                k_ = canon(do, c, keep=('side',))
-                # a board cell read directly in the condition after the board has been updated shows the position after the move
-                for x in walk(c):
-                    r_ = x.get('ref') or {}
-                    if r_.get('k') == 'Field' and short(r_['n']) == '_board' and nm.written_before(x, r_['n']):
-                        if nm.written_after(x, r_['n']):
-                            raise AnalysisBroken('do_move: a revocation depends on a board read at %s that lies between two board '
-                                                 'updates' % do.loc(x))
-                        k_ = k_.replace('_board[', "_board'[")
-                gf.append((k_, t))
-            rev.append((n, _mask_class(mask), _guard_class(gf)))
+            rev.append((n, None, None))
     ctx.floor('C02.R3.revocations', len(rev), 1, 'castling-right revocations in do_move')
-    want_rev = {
-        (('side', 'both'), ('castling-move',)),
-        (('side', 'both'), ('moved', 'KING', None)),
-        (('side', 'KING'), ('moved', 'ROOK', ('from', 'KING_SIDE', 'side'))),
-        (('side', 'QUEEN'), ('moved', 'ROOK', ('from', 'QUEEN_SIDE', 'side'))),
-        (('!side', 'KING'), ('captured', 'ROOK', ('to', 'KING_SIDE', '!side'))),
-        (('!side', 'QUEEN'), ('captured', 'ROOK', ('to', 'QUEEN_SIDE', '!side'))),
-    }
-    got = [(m, g) for n, m, g in rev]
-    for n, m, g in rev:
-        if m is None or g is None:
-            raise AnalysisBroken('do_move: castling-right revocation at %s outside the understood idioms' % do.loc(n))
-    for w in sorted(want_rev, key=str):
-        cnt = got.count(w)
-        ctx.ob('C02.R3.revocation', '%s<-%s' % (w[0], w[1]), cnt == 1,
-               'rights %s of %s are revoked exactly once when: %s (found %d)' % (w[0][1], w[0][0], w[1], cnt),
-               site=do.loc(rev[0][0]))
-    for n, m, g in rev:
-        if g and g[0] == 'blocked-by':
-            ctx.ob('C02.R3.independent', '%s' % (m,), False,
-                   'revocation of %s is skipped whenever `%s` holds: the classes are independent (a rook capturing a rook on its home '
-                   'square revokes two rights)' % (m, g[1]), site=do.loc(n))
-    extra = [g for g in got if g not in want_rev and g[1][0] != 'blocked-by']
-    ctx.ob('C02.R3.no-extra-revocation', 'do_move', not extra, 'no other revocation of castling rights exists (%s)' % extra, site=do.loc())
+    # Decision table: for each colour and each combination of {castling move / which piece moves from where / which piece is
+    # captured where} the set of rights the code clears (the AND of the masks of the revocations whose guards hold) must be the
+    # set the rules of chess take away. Spelling of the guards and of the masks is irrelevant; an atom outside the table stops
+    # the analysis.
+    pre_locals = {}
+    nmp = Norm(do)
+    nmp.mark_post = {'_board'}
+    for x in do.all_nodes():
+        if x['k'] == 'VarDecl' and kids(x) and not local_writes(do, x['id']):
+            d_ = Norm(do, inline=False)
+            d_.mark_post = {'_board'}
+            t_ = d_.s(kids(x)[0])
+            if t_ in ('_board[from(move)]', '_board[to(move)]'):
+                pre_locals[x['name']] = t_
+    crv = p.val('engine::CASTLING_RIGHTS')
+    ksq, qsq = p.val('engine::KING_SIDE_ROOK_SQUARE'), p.val('engine::QUEEN_SIDE_ROOK_SQUARE')
+    n_rows = 0
+    bad_row = None
+    for sd in (0, 1):
+        nms = Norm(do, env={'side': sd})
+        nms.mark_post = {'_board'}
+        entries = []
+        for n, m_, g_ in rev:
+            ms = nms.s(kids(n)[2])
+            expr = re.sub(r'CASTLING_RIGHTS\[(\d)\]', lambda mm: str(crv[int(mm.group(1))]), ms).replace('!(', '~(')
+            if not re.fullmatch(r'[0-9~&|()\s]+', expr):
+                raise AnalysisBroken('do_move: revocation mask `%s` at %s is not an expression over the castling constants' % (ms, do.loc(n)))
+            entries.append((n, eval(expr) & 15, all_guards(do, n)))
+        own, opp = crv[sd], crv[1 - sd]
+        KC, QC = cas['KING_CASTLING'], cas['QUEEN_CASTLING']
+        other_from, other_to = 20, 44
+        rows = [dict(C=c, mv='KNIGHT', fr=other_from, vc='NO_PIECE_KIND', to=other_to) for c in (KC, QC)]
+        for mv in ('KING', 'ROOK', 'KNIGHT', 'PAWN'):
+            for fr in (ksq[sd], qsq[sd], other_from):
+                for vc in ('ROOK', 'NO_PIECE_KIND', 'KNIGHT'):
+                    for to_ in (ksq[1 - sd], qsq[1 - sd], other_to):
+                        if mv == 'PAWN' and fr != other_from:
+                            continue            # no pawn stands on a home rank
+                        rows.append(dict(C=cas['NO_CASTLING'], mv=mv, fr=fr, vc=vc, to=to_))
+        for row in rows:
+            n_rows += 1
+            if True:
+                promo = row['mv'] == 'PAWN'          # the pawn row stands for a promotion to a rook landing on the corner
+                after = kinds['ROOK'] if promo else kinds[row['mv']]
+                val = {'castling(move)': row['C'], MOVER: kinds[row['mv']], VICTIM: kinds[row['vc']],
+                       'from(move)': row['fr'], 'to(move)': row['to'], '_enpassant_square': sq['NO_SQUARE'],
+                       '_board[to(move)]': 0 if row['vc'] == 'NO_PIECE_KIND' else 4,
+                       "get_piece_kind(_board'[to(move)])": after, "make_piece_kind(_board'[to(move)])": after,
+                       "get_piece_kind(_board'[from(move)])": kinds['NO_PIECE_KIND'], "make_piece_kind(_board'[from(move)])": kinds['NO_PIECE_KIND'],
+                       "_board'[from(move)]": 0, "_board'[to(move)]": 4,
+                       'promotion(move)': kinds['ROOK'] if promo else kinds['NO_PIECE_KIND']}
+                for t_, v_ in (('KING_SIDE_ROOK_SQUARE', ksq), ('QUEEN_SIDE_ROOK_SQUARE', qsq)):
+                    for i_ in (0, 1):
+                        val['%s[%d]' % (t_, i_)] = v_[i_]
+                # locals that hold a board cell read before the move (checked below) keep that value after it
+                for lname, cell in pre_locals.items():
+                    if cell == '_board[from(move)]':
+                        val['get_piece_kind(%s)' % lname] = val['make_piece_kind(%s)' % lname] = kinds[row['mv']]
+                        val[lname] = 2
+                    else:
+                        val['get_piece_kind(%s)' % lname] = val['make_piece_kind(%s)' % lname] = kinds[row['vc']]
+                        val[lname] = 0 if row['vc'] == 'NO_PIECE_KIND' else 4
+                expect = 0
+                if row['mv'] == 'KING':
+                    expect |= own
+                if row['mv'] == 'ROOK' and row['fr'] == ksq[sd]:
+                    expect |= own & KC
+                if row['mv'] == 'ROOK' and row['fr'] == qsq[sd]:
+                    expect |= own & QC
+                if row['vc'] == 'ROOK' and row['to'] == ksq[1 - sd]:
+                    expect |= opp & KC
+                if row['vc'] == 'ROOK' and row['to'] == qsq[1 - sd]:
+                    expect |= opp & QC
+                if row['C'] != cas['NO_CASTLING']:
+                    expect = own            # the other atoms are placeholders: the castling arm does not look at them
+            left = 15
+            try:
+                for n, mv_, gf in entries:
+                    if all(cond_value(nms, c, val) == t for c, t in gf):
+                        left &= mv_
+            except Unknown as u:
+                raise AnalysisBroken('do_move: a castling-right revocation depends on `%s`, which the table does not know' % u)
+            if (15 & ~left) != expect and bad_row is None:
+                bad_row = ('side %s, %s: rights cleared %s, the rules take away %s'
+                           % ('WHITE' if sd == 0 else 'BLACK',
+                              'castling move' if row['C'] != cas['NO_CASTLING'] else
+                              '%s moves from square %d, captures %s on square %d' % (row['mv'] + (' (promoting to a rook)' if row['mv'] == 'PAWN' else ''),
+                                                                                     row['fr'], row['vc'], row['to']),
+                              bin(15 & ~left), bin(expect)))
+    ctx.ob('C02.R3.revocation-table', 'do_move', bad_row is None,
+           'over %d combinations of colour, castling / moving piece and origin / captured piece and target, the castling rights '
+           'cleared are exactly those the move takes away%s' % (n_rows, '' if bad_row is None else ' — ' + bad_row),
+           site=do.loc(rev[0][0]))
     tabs = {'engine::KING_SIDE_ROOK_SQUARE': [sq['SQ_H1'], sq['SQ_H8']], 'engine::QUEEN_SIDE_ROOK_SQUARE': [sq['SQ_A1'], sq['SQ_A8']],
             'engine::CASTLING_RIGHTS': [cas['W_CASTLING'], cas['B_CASTLING']]}
     for t, v in tabs.items():
@@ -387,6 +443,15 @@ def _list_loop(f, find, repl):
         if not cf:
             continue
         iv = next(x['name'] for x in f.all_nodes() if x['k'] == 'VarDecl' and x.get('id') == cf[0])
+        # the scan starts at entry 0 and its last index is count-1 (or count-2 when the last entry replaces the found one:
+        # then the last entry itself needs no visit); entries at and above count are stale and must not be looked at
+        from rules.common import for_init_const
+        lf = nm.linear(cf[1])
+        if for_init_const(lp) != 0 or lf is None or lf[0] != {'_piece_count[piece]': 1}:
+            continue
+        last = lf[1] - (1 if cf[2] in ('<', '!=') else 0)
+        if last > -1 or last < (-2 if repl.startswith('_piece_position') else -1):
+            continue
         for n in walk(lp['ch'][4]):
             if n['k'] == 'IfStmt':
                 g = nm.conj(kids(n)[0])
